@@ -55,14 +55,16 @@ type (
 
 const BestCompression = "bestCompression"
 
+var defaultBestCompressionLevels = map[string]int{
+	// -1则会选择默认的压缩级别
+	"br":   -1,
+	"gzip": gzip.BestCompression,
+}
+
 var defaultCompressSrvList = NewServices([]CompressOption{
 	{
-		Name: BestCompression,
-		Levels: map[string]int{
-			// -1则会选择默认的压缩级别
-			"br":   -1,
-			"gzip": gzip.BestCompression,
-		},
+		Name:   BestCompression,
+		Levels: defaultBestCompressionLevels,
 	},
 })
 var defaultCompressSrv = NewService()
@@ -110,10 +112,20 @@ func (cs *compressSrvs) Get(name string) *compressSrv {
 func (cs *compressSrvs) Reset(opts []CompressOption) {
 	// 此处不删除存在的压缩服务，因为compress实例并不占多少内存
 	// 也避免配置了bestCompression后删除
+	bestCompressionConfigured := false
 	for _, opt := range opts {
+		if opt.Name == BestCompression {
+			bestCompressionConfigured = true
+		}
 		srv := NewService()
 		srv.SetLevels(opt.Levels)
 		cs.m.Store(opt.Name, srv)
+	}
+	// 内置的bestCompression如果曾被配置覆盖而现在配置已删除，则恢复默认的压缩级别
+	if !bestCompressionConfigured {
+		srv := NewService()
+		srv.SetLevels(defaultBestCompressionLevels)
+		cs.m.Store(BestCompression, srv)
 	}
 }
 
